@@ -33,7 +33,7 @@ sys.path.insert(0, ROOT)
 
 from contracts.common import REG, Contract  # noqa: E402
 import contracts.all  # noqa: E402,F401
-from contracts.rte_sweep import build_contract, allowed_for, CLS_OVERRIDE, SKIP, ROOTS  # noqa: E402
+from contracts.rte_sweep import build_contract, allowed_for, CLS_OVERRIDE, SKIP, ROOTS, TOKEN_ROOTS  # noqa: E402
 from pyvc.verify import verify_function  # noqa: E402
 from pyvc.contract import SRC  # noqa: E402
 
@@ -43,7 +43,7 @@ BUF_NAMES = ('data', 'bgp', 'packed', 'value')
 
 def candidates():
     out = []
-    for root in ROOTS:
+    for root in ROOTS + TOKEN_ROOTS:
         base = os.path.join(SRC, root)
         walk = os.walk(base) if os.path.isdir(base) else [(os.path.dirname(base), [], [os.path.basename(base)])]
         for dp, dn, fn in walk:
@@ -64,7 +64,10 @@ def candidates():
                             if names and names[0] == 'self':
                                 continue
                             bufs = [a for a in names if anns[a] in BUF_ANN or (a in BUF_NAMES and anns[a] in ('', 'Any'))]
-                            if not bufs:
+                            tokens = root in TOKEN_ROOTS and 'tokeniser' in names
+                            if tokens:
+                                bufs = []
+                            elif not bufs or root in TOKEN_ROOTS:
                                 continue
                             body = [s for s in n.body if not (isinstance(s, ast.Expr) and isinstance(s.value, ast.Constant))]
                             if len(body) == 1 and isinstance(body[0], ast.Raise):
@@ -75,13 +78,15 @@ def candidates():
                                     reads = True
                                 if isinstance(sub, ast.Call) and ast.unparse(sub.func) in ('unpack', 'struct.unpack', 'int.from_bytes', 'unpack_from'):
                                     reads = True
-                            if not reads:
+                            if not reads and not tokens:
                                 continue
                             params = {}
                             for a in names:
                                 an = anns[a]
                                 if a == 'cls':
                                     params[a] = 'cls'
+                                elif a == 'tokeniser' and tokens:
+                                    params[a] = 'tokens'
                                 elif a in bufs:
                                     params[a] = 'bytes'
                                 elif an == 'bool':
@@ -244,6 +249,14 @@ def find_canaries(entry, loops):
             op = m.group(2)
             new = {'<': f'len({m.group(1)}) < 0', '<=': f'len({m.group(1)}) < 0', '!=': f'len({m.group(1)}) < 0', '>=': f'len({m.group(1)}) >= 0', '>': f'len({m.group(1)}) >= 0'}[op]
             cands.append((txt, new))
+    if 'tokens' in entry['params'].values():
+        # token parsers: the refusal itself, raised as something Section.parse does not convert
+        for m in re.finditer(r'raise ValueError\(', seg):
+            cands.append(('raise ValueError(', 'raise KeyError('))
+            break
+        for m in re.finditer(r'int\(tokeniser\(\)\)', seg):
+            cands.append(('int(tokeniser())', '[1, 2][int(tokeniser())]'))
+            break
     for old, new in cands:
         if new is None or len(out) >= 2:
             continue
@@ -282,7 +295,9 @@ def main():
         except Exception as ex:  # noqa
             v, why, loops = 'error', f'{type(ex).__name__}: {str(ex)[:120]}', {}
         unterminated = [k for k, sp in loops.items() if loop_candidates(e)[k]['while'] and 'decreases' not in sp]
-        if v == 'ok' and unterminated:
+        if v == 'ok' and unterminated and 'tokens' not in e['params'].values():
+            # (token parsers: termination is not claimed -- it depends on the token stream ending, which the model of the
+            # tokeniser does not express)
             v, why = 'no-variant', f'while loop(s) {unterminated} without a proved variant'
         print(f'{v:10s} {label} {why[:140]}', flush=True)
         canaries = []
